@@ -418,9 +418,8 @@ class Extractor(object):
         v = repo.module_func(UTIL, 'visitor')
         if 'cls().process(*args, **kwargs)' not in unparse(v):
             raise AnalysisError('util.visitor changed beyond the frozen summary cls().process')
-        fb = repo.optional_helper(SCOPE, 'get_first_body_node_loc')
-        if fb is not None and 'np(n)' not in unparse(fb):
-            raise AnalysisError('scope.get_first_body_node_loc changed beyond the frozen summary')
+        # (get_first_body_node_loc is summarised as "the first token of the body"; whether the helper delivers that is decided by
+        #  interpreting it on concrete bodies - C01-R4 / C13-R1, sa/exprend.first_statement_layouts - not by its text)
 
     def m_get_expr_end(self, args):
         n, = args
